@@ -1,8 +1,44 @@
 import Generated.Facts
+import Generated.CoreAssign
 import Model.Interp
-/-! Tie (T) for C14: the qualifier words the model knows are the `Qualities` of /repo now. -/
+import Proofs.BridgeAssign
+import Props.C14
+/-! Tie (T) for C14.
+
+  * `qualifier_words`: the qualifier words the model knows are the `Qualities` of /repo now.
+  * `assignment_source_is_model`: the Lean translation of `Equality._do_assignment_new_impl`, `_latch_and_onchange`,
+    `_set_variable_if` and `_test_friendly_line_matches` — regenerated from /repo's working tree on every run by
+    tools/py2lean.py into Generated/CoreAssign.lean — computes the hand-written model `Model.Assign.assign`.
+  * `c14_table_source`: hence the documented decision table holds of the translated source itself. -/
 namespace Props.C14Tie
+open Model.Assign Proofs.BridgeAssign
+
 theorem qualifier_words :
     Generated.qualities.all Model.Interp.knownQuals.contains = true ∧
     Model.Interp.knownQuals.all Generated.qualities.contains = true := by decide
+
+/-- For every qualifier set, every current and new value (None, any int, any string), both logic modes, both answers
+    of the look-ahead, given as test argument or live: the translated source returns the model's vote, records the
+    model's write as its one `set_variable` effect (none when the model writes nothing) and raises TypeError exactly
+    when the model does. -/
+theorem assignment_source_is_model (q : Quals) (cur y : Val) (lmArg : Option Bool) (dm lm : Bool) (name tracking : Py.V)
+    (hn : notExc name = true) (ht : notExc tracking = true) (effs : List Py.Eff) :
+    Generated.Assign.Equality._do_assignment_new_impl (selfEnv dm lm) name tracking (argsEnv q cur y lmArg) effs
+      = outRes name tracking effs (assign q cur y (lmSeen lmArg lm) dm) :=
+  do_assignment_bridge q cur y lmArg dm lm name tracking hn ht effs
+
+/-- The decision table of docs/assignment.md, stated of the translated source. -/
+theorem c14_table_source (q : Quals) (cur y : Val) (lmArg : Option Bool) (dm lm : Bool) (name tracking : Py.V)
+    (hn : notExc name = true) (ht : notExc tracking = true) (effs : List Py.Eff)
+    (hc : Proofs.Assign.comparable cur y = true) (hq : Proofs.Assign.inQuantifier q y = true) :
+    Generated.Assign.Equality._do_assignment_new_impl (selfEnv dm lm) name tracking (argsEnv q cur y lmArg) effs
+      = outRes name tracking effs
+          (.ok (Spec.Assign.assign q cur y (lmSeen lmArg lm == dm) dm).1 (Spec.Assign.assign q cur y (lmSeen lmArg lm == dm) dm).2) := by
+  rw [assignment_source_is_model q cur y lmArg dm lm name tracking hn ht effs, Props.C14.c14_table q cur y _ dm hc hq]
+
+/-- non-vacuity: `@x.increase = 7` over a current 3 in an AND csvpath writes 7 and votes True -/
+example : Generated.Assign.Equality._do_assignment_new_impl (selfEnv true true) (.str "x") .none
+    (argsEnv { increase := true } (.int 3) (.int 7) none) [] =
+    .ok (.bool true) [{ name := "set_variable value= tracking=", args := [.str "x", .int 7, .none] }] := by decide
+
 end Props.C14Tie
